@@ -68,6 +68,7 @@ Step(c, m, e) ==
     [] e.e = "Cut" -> IF m.cutAt = -1 THEN [m EXCEPT !.cutAt = e.t, !.cutKind = e.kind] ELSE m
     [] e.e = "Restart" -> IF m.restartAt = -1 THEN [m EXCEPT !.restartAt = e.t] ELSE m
     [] e.e = "Accepted" -> m
+    [] e.e = "Muted" -> m      \* a reconnect attempt whose DoIP routing activation the rebooting gateway left unanswered
     [] e.e = "Begin" -> [m EXCEPT !.op = e.op, !.t0 = e.t, !.tmo = e.tmo]
     [] e.e = "End" ->
          IF e.op = "close" THEN (IF e.res = "ok" THEN m ELSE Fail(m, "L4/close-raised"))
